@@ -195,12 +195,136 @@ fn canary_run(i: usize, seed: u64) -> Canary {
     out
 }
 
+// ---- (4) disclosure correlation -----------------------------------------------------------------
+
+struct Corr {
+    harness: Option<String>,
+    shares: Vec<bool>,
+    inputs: Vec<bool>,
+    /// every bit-valued field of the party's outgoing traffic, in transcript order
+    public_bits: Vec<bool>,
+    /// (label, occurrence, first index in public_bits)
+    layout: Vec<(String, usize, usize)>,
+}
+
+fn corr_circuit(p: usize, k: usize, ands: usize) -> (polytune::garble_lang::register_circuit::Circuit, Vec<usize>) {
+    let inputs: Vec<usize> = (0..2).map(|q| if q == p { k } else { 2 }).collect();
+    let mut b = Builder::new(&inputs);
+    let o = 1 - p;
+    let mut acc = b.and(b.input(p, 0), b.input(o, 0));
+    for i in 1..ands {
+        let x = b.xor(acc, b.input(p, i % k));
+        acc = b.and(x, b.input(o, i % 2));
+    }
+    let regs: Vec<usize> = (0..k).map(|i| b.input(p, i).0 as usize).collect();
+    (b.finish(vec![acc]), regs)
+}
+
+fn corr_run(i: usize, seed: u64, p: usize, ands: usize) -> Corr {
+    let mut rng = ChaCha8Rng::seed_from_u64(seed ^ 0xc0 ^ (i as u64).wrapping_mul(0x9e3779b97f4a7c15) ^ ((p as u64) << 40) ^ ((ands as u64) << 20));
+    let k = 8;
+    let (c, regs) = corr_circuit(p, k, ands);
+    let secret: Vec<bool> = (0..k).map(|_| rng.random()).collect();
+    let inputs: Vec<Vec<bool>> = (0..2).map(|q| if q == p { secret.clone() } else { vec![rng.random(), rng.random()] }).collect();
+    let case = Case::new(c, inputs.clone(), 0, vec![0, 1]);
+    let ex = exec_mpc(case);
+    let mut out = Corr { harness: None, shares: vec![], inputs: secret.clone(), public_bits: vec![], layout: vec![] };
+    if ex.end != RunEnd::AllFinished || !ex.outcomes.iter().all(|o| matches!(o, Outcome::Done(Ok(_)))) {
+        out.harness = Some(format!("honest run failed: {:?}", ex.end));
+        return out;
+    }
+    match own_shares(&ex, 2, p, &regs, &secret) {
+        Some(s) => out.shares = s,
+        None => {
+            out.harness = Some("could not decode masked inputs / wire shares".into());
+            return out;
+        }
+    }
+    for m in ex.net.msgs.iter().filter(|m| m.from == p) {
+        let label = ex.net.label(m.label).to_string();
+        let Some(tree) = codec::schema_for(&label).and_then(|s| codec::decode_all(&s, &m.sent)) else { continue };
+        let start = out.public_bits.len();
+        if label == "fashare ver" {
+            // the opened check bit is byte 0 of every decommitment
+            if let Val::Vec(items) = &tree {
+                for it in items {
+                    if let Val::Vec(b) = it {
+                        if let Some(Val::U8(x)) = b.first() {
+                            out.public_bits.push(*x & 1 != 0);
+                        }
+                    }
+                }
+            }
+        } else {
+            bool_leaves(&tree, &mut out.public_bits);
+        }
+        if out.public_bits.len() > start {
+            out.layout.push((label, m.k, start));
+        }
+    }
+    out
+}
+
+/// Over N executions: does any bit of the party's traffic agree (or disagree) with its own mask
+/// share of an input wire, or with the input bit itself, in (almost) every execution?
+fn correlation_part(rep: &mut Report, seed: u64, n_runs: usize, ands: usize) {
+    for p in 0..2usize {
+        let role = if p == 0 { "evaluator" } else { "garbler" };
+        let runs = parallel_for(n_runs, threads(), |i| corr_run(i, seed, p, ands));
+        let good: Vec<&Corr> = runs.iter().filter(|r| r.harness.is_none()).collect();
+        for r in runs.iter().filter(|r| r.harness.is_some()) {
+            rep.evaluations += 1;
+            rep.harness_error(r.harness.clone().unwrap_or_default());
+        }
+        rep.evaluations += good.len() as u64;
+        if good.len() < n_runs * 9 / 10 {
+            continue;
+        }
+        let npos = good[0].public_bits.len();
+        if good.iter().any(|r| r.public_bits.len() != npos) {
+            rep.harness_error("traffic layout differs between executions (judged by C09)");
+            continue;
+        }
+        let n = good.len();
+        let t = n / 8; // with n = 128: P(Bin(128, 1/2) <= 16) < 1e-18 per pair
+        rep.add("correlation_bit_positions", npos as u64);
+        rep.add("correlation_pairs_tested", (npos * good[0].shares.len() * 2) as u64);
+        rep.distinct.insert(format!("correlation|{role}|ands={ands}"));
+        let label_of = |pos: usize| -> (String, usize, usize) {
+            let mut cur = (String::from("?"), 0, 0);
+            for (l, k, s) in &good[0].layout {
+                if *s <= pos { cur = (l.clone(), *k, pos - *s); } else { break; }
+            }
+            cur
+        };
+        for w in 0..good[0].shares.len() {
+            for (what, pick) in [("own mask share", 0usize), ("plain input bit", 1usize)] {
+                for pos in 0..npos {
+                    let mut agree = 0usize;
+                    for r in &good {
+                        let secret = if pick == 0 { r.shares[w] } else { r.inputs[w] };
+                        agree += (r.public_bits[pos] == secret) as usize;
+                    }
+                    if agree <= t || agree >= n - t {
+                        let (label, k, leaf) = label_of(pos);
+                        rep.violation(
+                            format!("a bit of the {role}'s traffic ('{label}') reveals its {what} of an input wire (agreement in {} of executions)", if agree >= n - t { "almost all" } else { "almost none" }),
+                            json!({"role": role, "input_wire": w, "label": label, "occurrence": k, "bit_index_in_message": leaf, "agreement": agree, "executions": n, "and_gates": ands}),
+                        );
+                        break;
+                    }
+                }
+            }
+        }
+    }
+}
+
 pub fn run(tier: &str, seed: u64) -> i32 {
     let thorough = tier == "thorough";
     let mut rep = Report::new("C06", tier, seed, "exploration");
     let n_per = if thorough { 2048 } else { 256 };
     let (lo, hi) = (n_per * 48 / 256, n_per * 208 / 256);
-    rep.rule = format!("(1) balance: for the evaluator and a garbler (n=2), {n_per} executions with all own inputs 0 and {n_per} with all 1; per input wire the party's own mask share, recovered from the transcript only as masked_input ^ input ^ XOR of the others' shares, must be 1 in [{lo}, {hi}] of the executions. (2) canary: 128 random input bits must not occur in any message the party sends as packed bit run (either bit order), bool-byte run, decoded-bool run, nor complemented; the same for its own share vector. (3) freshness: all global keys (probe) and all 128-bit own-share vectors over all executions pairwise distinct. distinct = (role, input value, wire) cells of the balance test plus canary configurations (n, party, evaluator); non-trivial = the cell was filled from decoded transcripts");
+    rep.rule = format!("(1) balance: for the evaluator and a garbler (n=2), {n_per} executions with all own inputs 0 and {n_per} with all 1; per input wire the party's own mask share, recovered from the transcript only as masked_input ^ input ^ XOR of the others' shares, must be 1 in [{lo}, {hi}] of the executions. (2) canary: 128 random input bits must not occur in any message the party sends as packed bit run (either bit order), bool-byte run, decoded-bool run, nor complemented; the same for its own share vector. (3) freshness: all global keys (probe) and all 128-bit own-share vectors over all executions pairwise distinct. (4) disclosure: over 128+ executions with random inputs (3-AND circuit and a 1000-AND circuit whose preprocessing batches are full) no bit-valued field at a fixed position of the party's traffic (decoded bools, opened aShare check bits) agrees or disagrees with its own mask share of an input wire, or with the input bit, in more than 7/8 of the executions. distinct = (role, input value, wire) cells of the balance test plus canary configurations (n, party, evaluator); non-trivial = the cell was filled from decoded transcripts");
     rep.assumptions = vec![format!("fixed thresholds: honest false-alarm probability below 1e-20 per wire at N={n_per}; biases smaller than the thresholds and computational distinguishers are not detected")];
     // (1)
     let total = 2 * 2 * n_per;
@@ -276,5 +400,12 @@ pub fn run(tier: &str, seed: u64) -> i32 {
         rep.violation("two executions used the same 128-bit own mask-share vector", json!({"vectors_observed": share_vecs.len()}));
     }
     rep.sample(json!({"kind": "balance", "cells": cells.iter().take(4).collect::<Vec<_>>()}));
+    // (4) disclosure correlation, on a small circuit and on one whose preprocessing batches are full
+    let n_corr = if thorough { 256 } else { 128 };
+    correlation_part(&mut rep, seed, n_corr, 3);
+    correlation_part(&mut rep, seed, n_corr, 1000);
+    if thorough {
+        correlation_part(&mut rep, seed ^ 0x55, n_corr, 2100);
+    }
     rep.finish()
 }
